@@ -155,6 +155,8 @@ type funcInfo struct {
 	fbCalls  []string
 	// for loops.go
 	inCode   bool     // Gen/Code has a definition (fresh or fallback)
+	errRes   bool     // parse.go: the last result is `error`; rtype is `option <values>`
+	nvals    int      // parse.go: number of results before the error
 	codeVars []string // Section variables of Gen/Code the definition depends on, in section order
 }
 
@@ -170,6 +172,7 @@ type codePkg struct {
 	funcM   map[*types.Func]*funcInfo
 	globals map[string]bool
 	wide    bool // loops.go: rune -> Z, byte -> ascii are inside the fragment
+	errs    bool // parse.go: (T, error) results are inside the fragment (option T)
 }
 
 var coqReserved = map[string]bool{}
@@ -232,7 +235,7 @@ func (cp *codePkg) trType(t types.Type) (string, error) {
 		}
 		return "list " + e, nil
 	case *types.Pointer:
-		if n, ok := types.Unalias(u.Elem()).(*types.Named); ok {
+		if n, ok := types.Unalias(u.Elem()).(*types.Named); ok && !isBuilderType(n) {
 			if _, isS := n.Underlying().(*types.Struct); isS {
 				return cp.trType(n)
 			}
@@ -241,6 +244,9 @@ func (cp *codePkg) trType(t types.Type) (string, error) {
 	case *types.Alias:
 		return cp.trType(types.Unalias(u))
 	case *types.Named:
+		if cp.errs && isBuilderType(u) {
+			return "bytes", nil // parse.go: a local strings.Builder is a bytes accumulator
+		}
 		if u.Obj().Pkg() != cp.pkg || u.TypeParams().Len() > 0 {
 			return "", fmt.Errorf("type %s", types.TypeString(t, types.RelativeTo(cp.pkg)))
 		}
@@ -340,6 +346,9 @@ func (cp *codePkg) zero(t types.Type) (string, error) {
 			return "[]", nil
 		}
 	case *types.Named:
+		if cp.errs && isBuilderType(u) {
+			return "([] : bytes)", nil
+		}
 		if si := cp.structOf(u); si != nil {
 			parts := []string{"mk_" + si.name}
 			for _, f := range si.fields {
@@ -1039,6 +1048,12 @@ func (t *fnTr) assignedOuter(ss [][]ast.Stmt, lo, hi token.Pos) []types.Object {
 					}
 				case *ast.IncDecStmt:
 					add(a.X)
+				case *ast.ExprStmt:
+					if t.cp.errs { // parse.go: b.WriteString(..) assigns the accumulator b
+						if id, _, _ := builderWrite(t.cp.info, a); id != nil {
+							add(id)
+						}
+					}
 				}
 				return true
 			})
@@ -1714,6 +1729,35 @@ func (cp *codePkg) signature(fi *funcInfo) {
 	}
 	if sig.Results().Len() == 0 {
 		why("no result")
+		return
+	}
+	if cp.errs && isErrorType(sig.Results().At(sig.Results().Len()-1).Type()) {
+		// parse.go: (T1, .., Tn, error) is option (T1 * .. * Tn); n = 0: option unit
+		var cts []string
+		for i := 0; i < sig.Results().Len(); i++ {
+			if sig.Results().At(i).Name() != "" {
+				why("named result")
+				return
+			}
+			if i == sig.Results().Len()-1 {
+				break
+			}
+			ct, err := cp.trType(sig.Results().At(i).Type())
+			if err != nil {
+				why("result of " + err.Error())
+				return
+			}
+			cts = append(cts, ct)
+		}
+		switch len(cts) {
+		case 0:
+			fi.rtype = "option unit"
+		case 1:
+			fi.rtype = "option " + paren(cts[0])
+		default:
+			fi.rtype = "option (" + strings.Join(cts, " * ") + ")"
+		}
+		fi.errRes, fi.nvals, fi.sigOK = true, len(cts), true
 		return
 	}
 	if sig.Results().Len() > 1 {
